@@ -43,7 +43,7 @@ def toSource (k : String) (tok : String) : Option (List Nat) := do
   | "v" | "l" | "d" | "f" | "m" => if xs.all (· < 3) then some xs else none
   | "a" => if xs.all (· < 3) ∧ xs.length ≤ 6 then some xs else none
   | "t" => if xs.all (· < 3) ∧ xs.length ≤ 3 then some xs else none
-  | "p" => if xs.all (· < 3) ∧ xs.length ≤ 2 then some xs else none
+  | "p" => if xs.all (· < 3) ∧ xs.length ≤ 3 then some xs else none
   | "s" => if xs.all (· < 3) then some (setOfList xs) else none
   | "i" => match xs with
     | [b, e] => if b ≤ 3 ∧ e ≤ 3 then some ((List.range (e - b)).map (· + b)) else none
@@ -77,7 +77,12 @@ def evalFn (fn k : String) (ps : List Nat) (raw xs : List Nat) : Option String :
   let sq := seqKinds.contains k
   match fn, ps with
   | "map", [t, F] =>
-    if !(ro || k == "a" || k == "p") || t > 3 || F ≥ 27 || ((k == "a" || k == "p") && t != 0) then none else
+    if !(ro || k == "a" || k == "p") || t > 4 || F ≥ 27 || ((k == "a" || k == "p") && t != 0 && t != 4) then none else
+    if t == 4 then
+      -- probe target with a logging `reserve`: every source kind except forward_list has `size()` or random access
+      let (c, log) := mapSeq (if hasSize k then some xs.length else none) xs (tblF F)
+      some s!"{ds c.elems}|{ds log}|{c.cap}"
+    else
     let (r, log) :=
       if t == 3 then let (c, log) := mapSet xs (tblF F); (c.elems, log)
       else let (c, log) := mapSeq (if t == 0 && hasSize k then some xs.length else none) xs (tblF F); (c.elems, log)
@@ -91,7 +96,9 @@ def evalFn (fn k : String) (ps : List Nat) (raw xs : List Nat) : Option String :
     let (r, log) := mapConcat xs (tblH H)
     some s!"{ds (if t == 3 then setOfList r else r)}|{ds log}"
   | "fold", [] =>
-    if !(ro || k == "a") then none else
+    if !(ro || k == "a" || k == "t" || k == "p") then none else
+    -- tuples and mpl lists are folded through the index recursion of `tuple_loop_break` / `for_each_break`
+    if k == "t" || k == "p" then some (toString (tupleLoopBreak xs (fun e st => (Loop.continue_, st * 4 + e + 1)) 0 0)) else
     some (toString (fold xs 0 (fun e st => st * 4 + e + 1)))
   | "foldbrk", [B] =>
     if !ro || B ≥ 8 then none else
@@ -102,7 +109,8 @@ def evalFn (fn k : String) (ps : List Nat) (raw xs : List Nat) : Option String :
     let r := if k == "t" || k == "p" then tupleLoopBreak xs (logged body) 0 ((), []) else loopBreak xs (logged body) ((), [])
     some (ds r.2)
   | "loop", [] =>
-    if !ro then none else
+    if !(ro || k == "a" || k == "t" || k == "p") then none else
+    if k == "t" || k == "p" then some (ds (tupleLoopBreak xs (fun e (log : List Nat) => (Loop.continue_, log ++ [e])) 0 [])) else
     some (ds (loop xs (fun e log => log ++ [e]) []))
   | "allof", [P] =>
     if !ro || P ≥ 8 then none else
@@ -137,18 +145,28 @@ def evalFn (fn k : String) (ps : List Nat) (raw xs : List Nat) : Option String :
     let (r, c) := remove xs xs V; some s!"{b01 r}|{ds c}"
   | "unique", [] => if !sq then none else some (ds (unique xs xs))
   | "uniqueif", [R] => if !sq || R ≥ 512 then none else some (ds (uniqueIf xs xs (rel R)))
-  | "reverse", [] => if !sq then none else some (exc ds (reverse xs))
+  | "reverse", [] =>
+    if !sq then none else
+    let a := exc ds (reverse xs); let b := exc ds (reverseRvalue xs)
+    some (if a == b then a else s!"{a}!={b}")
   | "seqiter", [R] =>
-    if !sq || R ≥ 8 then none else
-    let (c, log) := seqIteration xs (fun e log => (bit R e, log ++ [e])) []
+    if !sq || R ≥ 16 then none else
+    let (c, log) := seqIteration xs (fun e (log : List Nat) => (bit (R % 8) ((e + (if R ≥ 8 then log.length else 0)) % 3), log ++ [e])) []
     some s!"{ds c}|{ds log}"
   | "atopt", [I] =>
-    if !(k == "v" || k == "d" || k == "a") then none else
+    if !(k == "v" || k == "d" || k == "a") || I > 1005 then none else
+    let big : List Nat := [2 ^ 31, 2 ^ 32, 2 ^ 32 + 1, 2 ^ 63, 2 ^ 64 - 1, 2 ^ 33 + 2]
+    let I := if I < 1000 then I else big.getD (I - 1000) 0
     some (match atOptional xs I with | none => "none" | some r => exc toString r)
   | "join", [K, c1, c2] =>
     -- the parts are cut from the raw sequence (each part becomes its own container)
     let xs := raw
-    if !(sq || k == "s") || K < 1 || K > 3 || c1 > c2 || c2 > xs.length then none else
+    if !(sq || k == "s") || K < 1 || K > 5 || c1 > c2 || c2 > xs.length then none else
+    if K == 4 || K == 5 then
+      -- the same container as every argument
+      let args := if K == 4 then [xs] else [xs, xs]
+      if k == "s" then some (ds (joinSet (setOfList xs) (args.map setOfList))) else some (ds (join xs args))
+    else
     let (a, b, c) := cutParts xs c1 c2
     -- for K = 1 the whole sequence, for K = 2 the parts [0,c1) and [c1,len)
     let parts : List (List Nat) := if K == 1 then [xs] else if K == 2 then [a, b ++ c] else [a, b, c]
@@ -158,7 +176,9 @@ def evalFn (fn k : String) (ps : List Nat) (raw xs : List Nat) : Option String :
       if k == "s" then some (ds (joinSet (setOfList p) (rest.map setOfList)))
       else some (ds (join p rest))
   | "amap", [F] =>
-    if k != "a" || F ≥ 27 then none else some (exc ds (arrayMap xs (tblF F)))
+    if k != "a" || F ≥ 27 then none else
+    let a := exc ds (arrayMap xs (tblF F)); let b := exc ds (mapArray xs (tblF F))
+    some (if a == b then a else s!"{a}!={b}")
   | "aappend", [c1] =>
     if k != "a" || c1 > xs.length || c1 > 3 || xs.length - c1 > 3 then none else some (exc ds (arrayAppend (xs.take c1) (xs.drop c1)))
   | "ajoin", [c1, c2] =>
@@ -171,13 +191,188 @@ def evalFn (fn k : String) (ps : List Nat) (raw xs : List Nat) : Option String :
     if !(k == "v" || k == "d") || N > 4 then none else
     some (match arrayFromRange N xs with | none => "none" | some r => exc ds r)
   | "tmap", [F] =>
-    if k != "t" || F ≥ 27 then none else some (exc ds (tupleMap xs (tblF F)))
+    if k != "t" || F ≥ 27 then none else
+    let a := exc ds (tupleMap xs (tblF F)); let b := exc ds (mapTuple xs (tblF F))
+    some (if a == b then a else s!"{a}!={b}")
   | "tpush", [V] =>
     if k != "t" || xs.length > 2 || V ≥ 3 then none else some (exc ds (tuplePushBack xs V))
   | "tconcat", [c1, c2] =>
     if k != "t" || c1 > c2 || c2 > xs.length then none else
     let (a, b, c) := cutParts xs c1 c2
     some (ds (tupleConcat [a, b, c]))
+  -- aliasing, references
+  | "removeat", [I] =>
+    if !sq || I > 8 then none else
+    match xs[I]? with
+    | none => some "skip"
+    | some e => let (r, c) := remove xs xs e; some s!"{b01 r}|{ds c}"
+  | "loopmut", [B] =>
+    if !(sq || k == "a") || B > 8 then none else
+    if B == 8 then some (ds (loopRef xs (fun e => (e + 1) % 3)))
+    else some (ds (loopBreakRef xs (fun e => (if bit B e then .break_ else .continue_, (e + 1) % 3))))
+  | "singular", [i, j] =>
+    if !(sq || k == "s") then none else
+    if i > j || j > raw.length || j > xs.length then some "skip" else some (b01 (singular (i, j)))
+  | "singularc", [] =>
+    if !(sq || k == "s" || k == "f") then none else some (b01 (rangeSingular xs))
+  -- the value argument is (a reference to) element I of the same container: the code copies it or only reads, so the
+  -- model is the plain function applied to `xs[I]`
+  | "containsat", [I] =>
+    if !(sq || k == "f" || k == "s") || I > 8 then none else
+    match xs[I]? with | none => some "skip" | some e => some (b01 (contains xs e))
+  | "findoptat", [I] =>
+    if !(sq || k == "f" || k == "s") || I > 8 then none else
+    match xs[I]? with | none => some "skip" | some e => some (optIdx xs (findOpt xs e))
+  | "indexofat", [I] =>
+    if !(k == "v" || k == "d" || k == "a") || I > 8 then none else
+    match xs[I]? with
+    | none => some "skip"
+    | some e => some (match indexOf xs e with | none => "none" | some i => toString i)
+  | "eqrangeat", [I] =>
+    if !(sq || k == "s") || I > 8 then none else
+    match xs[I]? with
+    | none => some "skip"
+    | some e => some (exc (fun r => s!"{r.1},{r.2}") (equalRange (fun a b => decide (a < b)) xs e))
+  | "bsearchat", [I] =>
+    if !(sq || k == "s") || I > 8 then none else
+    match xs[I]? with
+    | none => some "skip"
+    | some e => some (exc (optIdx xs) (binarySearch (fun a b => decide (a < b)) xs e))
+  | "apushat", [I] =>
+    if k != "a" || I > 8 then none else
+    if xs.length > 5 then some "skip" else
+    match xs[I]? with
+    | none => some "skip"
+    | some e => some (exc (fun r => ds r.1) (arrayPushBackVC false false 9 xs e))
+  | "aappendself", [] =>
+    if k != "a" then none else
+    if xs.length > 3 then some "skip" else some (exc (fun r => ds r.1) (arrayAppendVC false false 9 xs xs))
+  | "ajoinself", [] =>
+    if k != "a" then none else
+    if xs.length > 2 then some "skip" else some (exc (fun r => ds r.1) (arrayJoin3VC false false false 9 xs xs xs))
+  | "tpushat", [I] =>
+    if k != "t" || I > 2 then none else
+    if xs.length > 2 then some "skip" else
+    match xs[I]? with
+    | none => some "skip"
+    | some e => some (exc (fun r => ds r.1) (tuplePushBackVC false false 9 xs e))
+  | "tconcatself", [] =>
+    if k != "t" then none else some (ds (tupleConcatVC 9 [(false, xs), (false, xs)]).1)
+  -- arities
+  | "ajoin1", [] => if k != "a" then none else some (exc ds (arrayJoin xs []))
+  | "ajoin2", [c1] =>
+    if k != "a" then none else
+    if c1 > xs.length || c1 > 3 || xs.length - c1 > 3 then some "skip" else some (exc ds (arrayJoin (xs.take c1) [xs.drop c1]))
+  | "ajoin4", [mask] =>
+    if k != "a" || mask > 15 then none else
+    let sz : Nat → Nat := fun i => if mask.testBit i then 1 else 0
+    if sz 0 + sz 1 + sz 2 + sz 3 != xs.length then some "skip" else
+    let a1 := xs.take (sz 0); let r1 := xs.drop (sz 0)
+    let a2 := r1.take (sz 1); let r2 := r1.drop (sz 1)
+    let a3 := r2.take (sz 2); let a4 := r2.drop (sz 2)
+    some (exc ds (arrayJoin a1 [a2, a3, a4]))
+  | "tconcatn", [K, c1] =>
+    if k != "t" || K > 2 then none else
+    if c1 > xs.length || (K == 0 && !xs.isEmpty) || (K ≤ 1 && c1 != 0) then some "skip" else
+    if K == 0 then some (ds (tupleConcat ([] : List (List Nat))))
+    else if K == 1 then some (ds (tupleConcat [xs]))
+    else some (ds (tupleConcat [xs.take c1, xs.drop c1]))
+  -- value categories: 9 = moved-from
+  | "vcmap", [cat] =>
+    if cat > 2 then none else
+    if k == "a" || k == "t" then
+      if xs.length > 3 then some "skip" else
+      some (exc (fun r => s!"{ds r.1}|{ds r.2}") (if k == "a" then arrayMapVC (cat == 2) 9 xs id else tupleMapVC (cat == 2) 9 xs id))
+    else if !sq then none else
+    let (r, src) := mapVC (cat == 2) 9 xs id
+    some s!"{ds r}|{ds src}"
+  | "vcfold", [cat] =>
+    if cat > 2 || !sq then none else some s!"{fold xs 0 (fun e st => st * 4 + e + 1)}|{ds xs}"
+  | "vcmapopt", [cat] =>
+    if cat > 2 || !sq then none else some s!"{ds (mapOptional xs some).1}|{ds xs}"
+  | "vcmapcat", [cat] =>
+    if cat > 2 || !sq then none else some s!"{ds (mapConcat xs (fun e => [e, e])).1}|{ds xs}"
+  | "vcjoin", [cat1, cat2, cat3, c1, c2] =>
+    if !sq || cat1 > 2 || cat2 < 1 || cat2 > 2 || cat3 < 1 || cat3 > 2 then none else
+    if c1 > c2 || c2 > xs.length then some "skip" else
+    let (a, b, c) := cutParts xs c1 c2
+    let (r, after) := joinVC 9 a [(cat2 == 2, b), (cat3 == 2, c)]
+    some s!"{ds r}|{if cat1 == 2 then "*" else ds a}|{"|".intercalate (after.map ds)}"
+  | "vcappend", [cat1, cat2, c1] =>
+    if k != "a" || cat1 > 2 || cat2 > 2 then none else
+    if c1 > xs.length || c1 > 2 || xs.length - c1 > 2 then some "skip" else
+    some (exc (fun r => s!"{ds r.1}|{ds r.2.1}|{ds r.2.2}") (arrayAppendVC (cat1 == 2) (cat2 == 2) 9 (xs.take c1) (xs.drop c1)))
+  | "vcpush", [cat, catx, V] =>
+    if k != "a" || cat > 2 || catx > 2 || V ≥ 3 then none else
+    if xs.length > 3 then some "skip" else
+    some (exc (fun r => s!"{ds r.1}|{ds r.2.1}|{r.2.2}") (arrayPushBackVC (cat == 2) (catx == 2) 9 xs V))
+  | "vcajoin", [cat1, cat2, cat3, c1, c2] =>
+    if k != "a" || cat1 > 2 || cat2 < 1 || cat2 > 2 || cat3 < 1 || cat3 > 2 then none else
+    if c1 > c2 || c2 > xs.length || c1 > 1 || c2 - c1 > 1 || xs.length - c2 > 1 then some "skip" else
+    let (a, b, c) := cutParts xs c1 c2
+    some (exc (fun r => s!"{ds r.1}|{ds r.2.1}|{ds r.2.2.1}|{ds r.2.2.2}") (arrayJoin3VC (cat1 == 2) (cat2 == 2) (cat3 == 2) 9 a b c))
+  | "vcfrom", [cat, N] =>
+    if !(k == "v" || k == "d") || cat > 2 || N > 3 then none else
+    some (match arrayFromRangeVC (cat == 2) 9 N xs with
+      | none => s!"none|{ds xs}"
+      | some r => exc (fun r => s!"{ds r.1}|{ds r.2}") r)
+  | "vctpush", [cat, catx, V] =>
+    if k != "t" || cat > 2 || catx > 2 || V ≥ 3 then none else
+    if xs.length > 2 then some "skip" else
+    some (exc (fun r => s!"{ds r.1}|{ds r.2.1}|{r.2.2}") (tuplePushBackVC (cat == 2) (catx == 2) 9 xs V))
+  | "vctconcat", [cat1, cat2, cat3, c1, c2] =>
+    if k != "t" || cat1 < 1 || cat1 > 2 || cat2 < 1 || cat2 > 2 || cat3 < 1 || cat3 > 2 then none else
+    if c1 > c2 || c2 > xs.length || c1 > 1 || c2 - c1 > 1 || xs.length - c2 > 1 then some "skip" else
+    let (a, b, c) := cutParts xs c1 c2
+    let (r, after) := tupleConcatVC 9 [(cat1 == 2, a), (cat2 == 2, b), (cat3 == 2, c)]
+    some s!"{ds r}|{"|".intercalate (after.map ds)}"
+  | "make", [t] =>
+    if k != "v" || t > 3 then none else
+    if xs.length > 4 then some "skip" else
+    some (exc (fun r => s!"{ds (if t == 3 then setOfList r.1 else r.1)}|{ds r.2}") (makeContainer 9 xs))
+  | "mvrange", [] =>
+    if !sq then none else
+    let (before, read, after) := moveRange 9 xs
+    some s!"{ds before}|{ds read}|{ds after}"
+  | "mmiter", [R] =>
+    if k != "v" || R ≥ 8 then none else
+    let m : Map := (List.range xs.length).zipWith (fun i v => (i / 2, v)) xs
+    let (m', log) := mapIteration m (fun e log => (bit R e.2, log ++ [e.2])) []
+    some s!"{if m'.isEmpty then "-" else ",".intercalate (m'.map fun e => s!"{e.1}>{e.2}")}|{ds log}"
+  | "setiter", [R] =>
+    if k != "s" || R ≥ 8 then none else
+    let (c, log) := seqIteration xs (fun e log => (bit R e, log ++ [e])) []
+    some s!"{ds c}|{ds log}"
+  -- equal, size, front/back, pop, data, output
+  | "equal", [k2, c1] =>
+    if !(sq || k == "f") || k2 > 3 then none else
+    if c1 > xs.length then some "skip" else
+    let ra := (k == "v" || k == "d") && (k2 == 0 || k2 == 2)
+    some (b01 (equal ra (xs.take c1) (xs.drop c1)))
+  | "equalself", [] =>
+    if !(sq || k == "f") then none else some (b01 (equal (k == "v" || k == "d") xs xs))
+  | "csize", [] => if !ro then none else some (toString (containerSize (hasSize k) xs))
+  | "mfront", [] =>
+    if !(sq || k == "f") then none else some (match maybeFront xs with | none => "none" | some r => exc toString r)
+  | "mback", [] =>
+    if !sq then none else some (match maybeBack xs with | none => "none" | some r => exc toString r)
+  | "popback", [] =>
+    if !sq then none else
+    let (o, c) := popBack xs
+    some s!"{match o with | none => "none" | some r => exc toString r}|{ds c}"
+  | "popfront", [] =>
+    if !(k == "l" || k == "d" || k == "f") then none else
+    let (o, c) := popFront xs
+    some s!"{match o with | none => "none" | some r => exc toString r}|{ds c}"
+  | "data", [] =>
+    if !(k == "v" || k == "a") then none else
+    let showP : Ptr → String := fun p => match p with | none => "null" | some i => toString i
+    some s!"{showP (data xs)}|{exc showP (dataEnd xs)}"
+  | "output", [] =>
+    if !(sq || k == "f" || k == "s") then none else
+    -- the harness prints the element x as the integer 50*x - 3
+    let w : List Int := xs.map fun (x : Nat) => Int.ofNat x * 50 - 3
+    some (String.ofList (output (fun (x : Int) => (toString x).toList) w))
   | _, _ => none
 
 /-- all source tokens of "length" `len` for kind `k`, in the order both sides enumerate them -/
@@ -221,7 +416,23 @@ def allPieceTuples : Nat → List (List (List Char))
   | 0 => [[]]
   | n + 1 => (allPieceTuples n).flatMap fun t => pieceChoices.map fun p => t ++ [p]
 
-def joinLine (d : List Char) (pieces : List (List Char)) : String := showStr (joinStrings pieces d)
+def splitAtLine (i : Nat) (s : List Char) : String :=
+  match s[i]? with
+  | none => "skip"
+  | some delim =>
+    let pieces := splitString s delim
+    s!"{pieces.length}:{"/".intercalate (pieces.map String.ofList)}"
+
+def joinAtLine (i : Nat) (pieces : List (List Char)) : String :=
+  match pieces[i]? with
+  | none => "skip"
+  | some delim => showStr (joinStrings pieces delim)
+
+def joinLine (d : List Char) (pieces : List (List Char)) : String :=
+  let joined := joinStrings pieces d
+  match d with
+  | [c] => s!"{showStr joined} rt={b01 (splitString joined c == pieces)}"
+  | _ => showStr joined
 
 /-! maps over {0,1,2} -/
 
@@ -239,8 +450,48 @@ def evalM (fn : String) (ps : List Nat) (M : Nat) : Option String :=
   | "findmapped", [K] => if K ≥ 3 then none else
     some (match findOptMapped m K with | none => "none" | some v => toString v)
   | "getorins", [K] => if K ≥ 3 then none else
-    let (r, m', calls) := getOrInsert m K (fun k (calls : List Nat) => ((k + 1) % 3, calls ++ [k])) []
-    some s!"{exc (fun r => s!"{r.1},{b01 r.2}") r}|{encodeMap m'}|{ds calls}"
+    let create := fun k (calls : List Nat) => ((k + 1) % 3, calls ++ [k])
+    let (r, m', calls) := getOrInsert m K create []
+    -- get_or_insert (without result) must return the same element, leave the same container and call `create` equally often
+    let (r2, m2, calls2) := getOrInsertPlain m K create []
+    let same := (r.map (·.1)) == r2 && m2 == m' && calls2 == calls
+    some s!"{exc (fun r => s!"{r.1},{b01 r.2}") r}{if same then "" else "!get_or_insert"}|{encodeMap m'}|{ds calls}"
+  | "contains", [K] => if K ≥ 4 then none else some (b01 (containerContains (m.map (·.1)) K))
+  | "findit", [K] => if K ≥ 4 then none else
+    some (match findOptIterator m K with | none => "none" | some i => toString i)
+  | "findopt", [K] => if K ≥ 4 then none else
+    some (match containerFindOpt m K with | none => "none" | some r => exc (fun e => s!"{e.1}>{e.2}") r)
+  | "insert", [KV] => if KV ≥ 12 then none else
+    let (r, m') := mapInsert m (KV / 3, KV % 3)
+    some s!"{b01 r}|{encodeMap m'}"
+  | "valsref", [D] => if D ≥ 3 then none else
+    -- the references are positions of mapped objects; every mapped value is changed after they were taken
+    let refs := mapValuesRef m
+    let m' : Map := m.map fun e => (e.1, (e.2 + D) % 3)
+    let vals := refs.map fun i => match m'[i]? with | some e => toString e.2 | none => "oob"
+    some (if vals.isEmpty then "-" else String.join vals)
+  | "findmappedat", [J] => if J > 2 then none else
+    match m[J]? with
+    | none => some "skip"
+    | some e => some (match findOptMapped m e.1 with | none => "none" | some v => toString v)
+  | "containsat", [J] => if J > 2 then none else
+    match m[J]? with | none => some "skip" | some e => some (b01 (containerContains (m.map (·.1)) e.1))
+  | "insertat", [J] => if J > 2 then none else
+    match m[J]? with
+    | none => some "skip"
+    | some e => let (r, m') := mapInsert m e; some s!"{b01 r}|{encodeMap m'}"
+  | "getorinsat", [J] => if J > 2 then none else
+    match m[J]? with
+    | none => some "skip"
+    | some e =>
+      let (r, m', calls) := getOrInsert m e.1 (fun k (calls : List Nat) => ((k + 1) % 3, calls ++ [k])) []
+      some s!"{exc (fun r => s!"{r.1},{b01 r.2}") r}|{encodeMap m'}|{ds calls}"
+  | "getorinsatv", [J] => if J > 2 then none else
+    match m[J]? with
+    | none => some "skip"
+    | some e =>
+      let (r, m', calls) := getOrInsert m e.2 (fun k (calls : List Nat) => ((k + 1) % 3, calls ++ [k])) []
+      some s!"{exc (fun r => s!"{r.1},{b01 r.2}") r}|{encodeMap m'}|{ds calls}"
   | "keyset", [] => some (ds (keySet m))
   | "mapvals", [] => some (ds (mapValues m))
   | "mapiter", [R] => if R ≥ 64 then none else
@@ -248,18 +499,35 @@ def evalM (fn : String) (ps : List Nat) (M : Nat) : Option String :=
     let (m', log) := mapIteration m (fun e log => (bit R ((e.1 + 2 * e.2) % 6), log ++ [e.1])) []
     some s!"{encodeMap m'}|{ds log}"
   | "mapiter2", [R] => if R ≥ 8 then none else
-    let (m', log) := mapIteration m (fun e log => (bit R e.2, log ++ [e.2])) []
+    let (m', log) := mapIterationSecond m (fun v log => (bit R v, log ++ [v])) []
     some s!"{encodeMap m'}|{ds log}"
   | _, _ => none
 
 def maskList (m : Nat) : List Nat := (List.range 3).filter (bit m)
 
 def setopLine (op : String) (a b : List Nat) : Option String :=
-  let a := setOfList a; let b := setOfList b
+  let a := setOfList a; let b0 := b; let b := setOfList b
   match op with
   | "U" => some (natList (setUnion a b))
   | "I" => some (natList (setIntersection a b))
   | "D" => some (natList (setDifference a b))
+  | "u" => some (natList (setUnion a a))
+  | "i" => some (natList (setIntersection a a))
+  | "d" => some (natList (setDifference a a))
+  | "C" => match b0 with
+    | [x] => some (b01 (containerContains a x))
+    | _ => none
+  | "c" => match b0 with
+    | [j] => (match a[j]? with | none => some "skip" | some x => some (b01 (containerContains a x)))
+    | _ => none
+  | "n" => match b0 with
+    | [j] => (match a[j]? with
+      | none => some "skip"
+      | some x => let (r, s') := setInsertFlag a x; some s!"{b01 r}|{if s'.isEmpty then "-" else natList s'}")
+    | _ => none
+  | "N" => match b0 with
+    | [x] => let (r, s') := setInsertFlag a x; some s!"{b01 r}|{if s'.isEmpty then "-" else natList s'}"
+    | _ => none
   | _ => none
 
 def nl (l : List Nat) : String := if l.isEmpty then "-" else natList l
@@ -270,6 +538,8 @@ def gen (g : Nat) : Nat × Nat := (g * g % 7, g + 1)
 structure St where
   impl : List Nat := []
   g : Nat := 0
+  m : Map := []
+  calls : Nat := 0
 
 def stateless (toks : List String) : String :=
   let r : Option String :=
@@ -287,6 +557,26 @@ def stateless (toks : List String) : String :=
       let len ← l.toNat?
       if len > 9 then none else
       pure ("D " ++ hex64 ((allStrings ['a', 'b', 'c'] len).foldl (fun h s => fnv h (splitLine s)) fnvInit))
+    | ["splitat", _, i, s] => do
+      let i ← i.toNat?
+      let s ← parseStr s
+      pure (splitAtLine i s)
+    | ["dsplitat", _, i, l] => do
+      let i ← i.toNat?
+      let len ← l.toNat?
+      if len > 9 then none else
+      pure ("D " ++ hex64 ((allStrings ['a', 'b', 'c'] len).foldl (fun h s => fnv h (splitAtLine i s)) fnvInit))
+    | "joinstrat" :: i :: n :: ps => do
+      let i ← i.toNat?
+      let n ← n.toNat?
+      if ps.length ≠ n ∨ n > 6 then none else
+      let ps ← ps.mapM parseStr
+      pure (joinAtLine i ps)
+    | ["djoinat", i, n] => do
+      let i ← i.toNat?
+      let n ← n.toNat?
+      if n > 4 then none else
+      pure ("D " ++ hex64 ((allPieceTuples n).foldl (fun h t => fnv h (joinAtLine i t)) fnvInit))
     | "joinstr" :: d :: n :: ps => do
       let d ← parseStr d
       let n ← n.toNat?
@@ -314,7 +604,8 @@ def stateless (toks : List String) : String :=
       let b ← parseNatList b
       (setopLine op a b).map fun s => if s.isEmpty then "-" else s
     | ["dset", op] => do
-      let lines ← ((List.range 64).mapM fun n => setopLine op (maskList (n / 8)) (maskList (n % 8)))
+      let single := op == "N" || op == "C" || op == "n" || op == "c"
+      let lines ← ((List.range 64).mapM fun n => setopLine op (maskList (n / 8)) (if single then [n % 4] else maskList (n % 8)))
       pure ("D " ++ hex64 (lines.foldl (fun h s => fnv h (if s.isEmpty then "-" else s)) fnvInit))
     | ["repeat", c] => do
       let c ← c.toInt?
@@ -322,8 +613,14 @@ def stateless (toks : List String) : String :=
       pure (toString (repeatLoop c (· + 1) 0 (0 : Nat)))
     | ["genn", t, n] => do
       let n ← n.toNat?
-      if n > 64 ∨ !(["v", "l", "d"].contains t) then none else
-      pure (nl (generateN n gen 0).1.elems)
+      if n > 64 ∨ !(["v", "l", "d", "r"].contains t) then none else
+      let c := (generateN n gen 0).1
+      pure (if t == "r" then s!"{nl c.elems}|{c.cap}" else nl c.elems)
+    | ["dyn", n] => do
+      let n ← n.toNat?
+      if n > 64 then none else
+      let a : DynArray Nat := DynArray.mk' n
+      pure s!"{a.size}|{a.extent}|{exc nl (DynArray.fillRead n (fun i => (i * i + 1) % 7))}"
     | ["ainit", n] => do
       let n ← n.toNat?
       if n > 6 then none else
@@ -351,6 +648,44 @@ def step (st : St) (toks : List String) : St × String :=
       | .ok (v, impl, _) => ({ st with impl }, s!"{v} {impl.length}|{nl impl}")
       | .error e => (st, e.name)
     | none => (st, "bad-op")
+  | ["hgoi", K] =>
+    match K.toNat? with
+    | some K =>
+      if K > 3 then (st, "bad-op") else
+      let (r, m', calls') := getOrInsert st.m K (fun k (calls : Nat) => ((k + calls) % 3, calls + 1)) st.calls
+      ({ st with m := m', calls := calls' }, s!"{exc (fun r => s!"{r.1},{b01 r.2}") r}|{encodeMap m'}|{calls' - st.calls}")
+    | none => (st, "bad-op")
+  | ["hins", K, V] =>
+    match K.toNat?, V.toNat? with
+    | some K, some V =>
+      if K > 3 || V > 2 then (st, "bad-op") else
+      let (r, m') := mapInsert st.m (K, V)
+      ({ st with m := m' }, s!"{b01 r}|{encodeMap m'}")
+    | _, _ => (st, "bad-op")
+  | ["hfind", K] =>
+    match K.toNat? with
+    | some K => if K > 3 then (st, "bad-op") else
+      (st, match findOptMapped st.m K with | none => "none" | some v => toString v)
+    | none => (st, "bad-op")
+  | ["hcont", K] =>
+    match K.toNat? with
+    | some K => if K > 3 then (st, "bad-op") else (st, b01 (containerContains (st.m.map (·.1)) K))
+    | none => (st, "bad-op")
+  | ["hiter", R] =>
+    match R.toNat? with
+    | some R => if R > 7 then (st, "bad-op") else
+      let (m', log) := mapIterationSecond st.m (fun v log => (bit R v, log ++ [v])) []
+      ({ st with m := m' }, s!"{encodeMap m'}|{ds log}")
+    | none => (st, "bad-op")
+  | ["hset", K, V] =>
+    match K.toNat?, V.toNat? with
+    | some K, some V =>
+      if K > 3 || V > 2 then (st, "bad-op") else
+      -- get_or_insert(m, K, create) = V: assignment through the returned reference
+      let (_, m', calls') := getOrInsertPlain st.m K (fun _ (calls : Nat) => (0, calls + 1)) st.calls
+      let m'' : Map := m'.map fun e => if e.1 == K then (e.1, V) else e
+      ({ st with m := m'', calls := calls' }, encodeMap m'')
+    | _, _ => (st, "bad-op")
   | _ => (st, stateless toks)
 
 def main : IO Unit := Proto.runState ({} : St) step
